@@ -71,7 +71,7 @@ fn def(prop: &str) -> Option<Def> {
             max_ops: (48, 140),
             cases: (240_000, 6_000_000),
             nontrivial: |c| has(c, "reuse-while-other-origin-connection-alive"),
-            rule: "history as for C02 over six URIs forming four origins that differ in scheme, port, host and letter case; non-trivial = a pooled connection was reused while a live connection of a different origin existed",
+            rule: "history as for C02 over six URIs forming four origins that differ in scheme, port, host and letter case, plus a leg over random 2-4-element subsets of an 18-entry table with near misses (explicit port equal to the other scheme's default, same explicit port under the other scheme, hosts extending one another, IPv4/IPv6 literals); origins are compared by (scheme, host, effective port); non-trivial = a pooled connection was reused while a live connection of a different origin existed",
             min_class: vec![("reuse-while-other-origin-connection-alive", 0.10)],
         },
         "C14" => Def {
@@ -166,6 +166,7 @@ pub fn run(ctx: &Ctx) -> i32 {
         total.merge(run_fuzz_leg(ctx, "fz_pool", "poolsim", Some(d.prop), ctx.cases(0, 40_000), 400, seeds));
     }
     if d.prop == "C06" {
+        total.merge(run_generated(ctx, &engine, "near-miss-origins", move || near_origins_strategy(d.profile, max_ops), ctx.cases(60_000, 1_500_000), 2000));
         total.merge(run_generated(ctx, &engine, "many-origins", move || many_origins_strategy(40), ctx.cases(240, 20_000), 300));
     }
     if d.prop == "C05" {
